@@ -1537,9 +1537,10 @@ class _Random:
     def _draws(kind, n, integer=False):
         c = ctx()
         out = []
+        st = c.registry.setdefault('_draw_state', {'ns': '', 'k': 0})
         for _ in range(n):
-            k = sum(1 for e in c.events if e[0] == 'draw')
-            name = f'draw{k}_{kind}'
+            name = f"draw{st['ns']}{st['k']}_{kind}"
+            st['k'] += 1
             if integer:
                 v = z3.Int(name)
                 c.inputs[name] = v
@@ -1554,7 +1555,14 @@ class _Random:
 
     @staticmethod
     def seed(s=None):
+        """np.random.seed(s): the draw stream restarts; the same seed replays the same draws."""
         event('seed', s)
+        if have_ctx():
+            c = ctx()
+            if c.mode == 'concrete':
+                c.draw_seed(s)
+            else:
+                c.registry['_draw_state'] = {'ns': f's{s}_', 'k': 0}
 
     @staticmethod
     def normal(loc=0.0, scale=1.0, size=None):
